@@ -877,6 +877,76 @@ pub fn gen_pipe_chain(rng: &mut Rng) -> Program {
     finish(prog, &g)
 }
 
+/// Two pipes chained and run to the end: pipe into pipe (the consumer reads the second output) or pipe into pipe_in.  Every
+/// per-stage promise holds for both stages: one output per input in order then the end, items once and in order, a
+/// throttled producer resumes after a read, whoever the consumer is (here: another pipe, itself throttled now and then).
+pub fn gen_pipe_chain_out(rng: &mut Rng) -> Program {
+    let pool_max = rng.range(1, 3) as usize;
+    let faults = gen_faults(rng, true);
+    let mut g = Gen::new(rng, 2);
+    let oa = 0;
+    let ob = if g.rng.permille(750) { 1 } else { 0 };
+    let (s, s2) = (0, 1);
+    let (out_a, out_b) = (0, 1);
+    let n_items = if g.rng.permille(120) { g.rng.range(8, 16) as usize } else { g.rng.range(0, 8) as usize };
+    let (depth_a, depth_b) = (g.rng.range(1, 4) as usize, g.rng.range(1, 4) as usize);
+    let second_is_pipe = g.rng.permille(700);
+    let prefilled = if g.rng.permille(200) { n_items } else { g.rng.range(0, n_items as u64) as usize };
+    let mut t0 = vec![];
+    for i in 0..prefilled {
+        t0.push({ let __k = OpKind::Push { s, item: 10 + i as u32 }; g.op(__k) });
+    }
+    t0.push({ let __k = OpKind::Pipe { o: oa, s, depth: depth_a, out: out_a, body: item_body(&mut g), from: None }; g.op(__k) });
+    if g.rng.permille(300) {
+        t0.push({ let __k = OpKind::Yield(g.rng.range(1, 3) as u8); g.op(__k) });
+    }
+    if second_is_pipe {
+        t0.push({ let __k = OpKind::Pipe { o: ob, s: s2, depth: depth_b, out: out_b, body: item_body(&mut g), from: Some(out_a) }; g.op(__k) });
+        let n_reads = g.rng.range(0, n_items as u64 + 2);
+        for _ in 0..n_reads {
+            match g.rng.weighted(&[12, 6, 4, 1]) {
+                0 => t0.push({ let __k = OpKind::Next { out: out_b }; g.op(__k) }),
+                1 => t0.push({ let __k = OpKind::PollNext { out: out_b }; g.op(__k) }),
+                2 => t0.push({ let __k = OpKind::Yield(g.rng.range(1, 3) as u8); g.op(__k) }),
+                _ => t0.push({ let __k = OpKind::SetDepth { out: out_b, depth: g.rng.range(1, 6) as usize }; g.op(__k) }),
+            }
+        }
+    } else {
+        t0.push({ let __k = OpKind::PipeIn { o: ob, s: s2, body: item_body(&mut g), from: Some(out_a) }; g.op(__k) });
+    }
+    let mut threads = vec![t0];
+    if g.rng.permille(300) {
+        let mut t = vec![];
+        for _ in 0..g.rng.range(1, 3) {
+            let o = if g.rng.permille(500) { oa } else { ob };
+            match g.rng.below(2) {
+                0 => t.push({ let __k = OpKind::Desync { o, body: vec![Step::Yield(1)] }; g.op(__k) }),
+                _ => t.push({ let __k = OpKind::Sync { o, body: vec![] }; g.op(__k) }),
+            }
+        }
+        threads.push(t);
+    }
+    let mut env = vec![];
+    for i in prefilled..n_items {
+        if g.rng.permille(400) {
+            let n = g.rng.range(1, 3) as u8;
+            env.push({ let __k = OpKind::Yield(n); g.op(__k) });
+        }
+        env.push({ let __k = OpKind::Push { s, item: 10 + i as u32 }; g.op(__k) });
+    }
+    if g.rng.permille(700) {
+        env.push({ let __k = OpKind::CloseStream { s }; g.op(__k) });
+    }
+    let envg = if g.n_gates > 0 && g.rng.permille(700) { g.env_gates(2) } else { vec![] };
+    let mut prog = base_program(pool_max, 2);
+    prog.n_streams = 2;
+    prog.n_outs = 2;
+    prog.faults = faults;
+    prog.prespawn = g.rng.permille(300);
+    prog.phases = vec![Phase { ctl: vec![], threads, env_gates: envg, env_streams: env }];
+    finish(prog, &g)
+}
+
 // ---- position sweeps --------------------------------------------------------------------------
 
 /// C16: the drop of the output is injected at every scheduling point of whoever polls the input.
